@@ -118,15 +118,35 @@ var examplePaddings = []string{"", "a", " "}
 // with a character before and/or after them: the pattern is searched for in a
 // string, so the additional characters are harmless, but they are what
 // an assertion at the edge of the string may require.
+//
+// The generator also knows nothing about the surrogate code points (U+D800 -
+// U+DFFF): it draws them from a class like [\x{D000}-\x{E000}], though no string
+// has them (a surrogate is encoded as U+FFFD, which the class doesn't match).
+// When nothing was found and the pattern has such classes, the search is done
+// once more with the surrogates taken out of the classes. A pattern for which
+// the first search finds a string gets the string it has always got.
 func matchingExample(pattern string, seed int64) (string, bool) {
 	re, err := regexp.Compile(pattern)
 	if err != nil {
 		return "", false
 	}
 
+	if example, ok := searchExample(re, generatorPattern(pattern), seed); ok {
+		return example, true
+	}
+
+	if p, ok := patternWithoutSurrogates(pattern); ok {
+		return searchExample(re, p, seed)
+	}
+	return "", false
+}
+
+// searchExample looks for a string matching re among the strings generated from
+// the pattern genPattern.
+func searchExample(re *regexp.Regexp, genPattern string, seed int64) (string, bool) {
 	candidates := make([]string, 0, exampleAttempts)
 	for i := int64(0); i < exampleAttempts; i++ {
-		candidate, err := generate(pattern, seed+i)
+		candidate, err := generate(genPattern, seed+i)
 		if err != nil {
 			continue
 		}
@@ -148,22 +168,82 @@ func matchingExample(pattern string, seed int64) (string, bool) {
 	return "", false
 }
 
-// generate generates a string for the pattern. The generator panics on a
-// character class it cannot choose a character from (e.g. the one which matches
-// nothing), the panic is returned as an error.
-func generate(pattern string, seed int64) (example string, err error) {
+// generate generates a string for the pattern (already prepared for the
+// generator, see generatorPattern). The generator panics on a character class
+// it cannot choose a character from (e.g. the one which matches nothing), the
+// panic is returned as an error.
+func generate(genPattern string, seed int64) (example string, err error) {
 	defer func() {
 		if r := recover(); r != nil {
 			err = fmt.Errorf("generate example: %v", r)
 		}
 	}()
 
-	g, err := reggen.NewGenerator(generatorPattern(pattern))
+	g, err := reggen.NewGenerator(genPattern)
 	if err != nil {
 		return "", err
 	}
 	g.SetSeed(seed)
 	return g.Generate(1), nil
+}
+
+const (
+	surrogateMin = 0xD800
+	surrogateMax = 0xDFFF
+)
+
+// patternWithoutSurrogates returns the pattern for the generator (see
+// generatorPattern) in which no character class has a surrogate code point. The
+// second result is false when the pattern has no class with surrogates.
+func patternWithoutSurrogates(pattern string) (string, bool) {
+	re, err := syntax.Parse(pattern, syntax.Perl)
+	if err != nil {
+		return "", false
+	}
+	if !removeSurrogates(re) {
+		return "", false
+	}
+	replaceNonASCIIClasses(re)
+	return re.String(), true
+}
+
+func removeSurrogates(re *syntax.Regexp) bool {
+	removed := false
+	if re.Op == syntax.OpCharClass {
+		if ranges, ok := rangesWithoutSurrogates(re.Rune); ok {
+			re.Rune = ranges
+			removed = true
+		}
+	}
+	for _, sub := range re.Sub {
+		if removeSurrogates(sub) {
+			removed = true
+		}
+	}
+	return removed
+}
+
+// rangesWithoutSurrogates returns the class (pairs of range bounds) without the
+// surrogate code points, in a slice of its own. The second result is false when
+// the class has none of them.
+func rangesWithoutSurrogates(ranges []rune) ([]rune, bool) {
+	res := make([]rune, 0, len(ranges)+2)
+	removed := false
+	for i := 0; i+1 < len(ranges); i += 2 {
+		lo, hi := ranges[i], ranges[i+1]
+		if hi < surrogateMin || lo > surrogateMax {
+			res = append(res, lo, hi)
+			continue
+		}
+		removed = true
+		if lo < surrogateMin {
+			res = append(res, lo, surrogateMin-1)
+		}
+		if hi > surrogateMax {
+			res = append(res, surrogateMax+1, hi)
+		}
+	}
+	return res, removed
 }
 
 // generatorPattern returns the pattern the example should be generated from.
